@@ -585,7 +585,7 @@ READERS = {"get", "values", "items", "keys", "popitem", "pop", "copy_shallow_nev
 PASS_THROUGH = {"_map_kwargs_over_axes", "_maybe_promote_str_to_list", "_maybe_unpack_vector_component",
                 "_check_data_input", "_promote_to_sequence_and_check", "_strip_all_coords_never"}
 SITE_MODULES = ["padding.py", "grid.py", "grid_ufunc.py", "transform.py", "metrics.py", "axis.py",
-                "metadata_parsers.py", "comodo.py", "sgrid.py"]
+                "metadata_parsers.py", "comodo.py", "sgrid.py", "gridops.py"]
 ENTRY_POINTS = [
     ("grid.py", "Grid.__init__"), ("grid.py", "Grid.diff"), ("grid.py", "Grid.interp"), ("grid.py", "Grid.min"),
     ("grid.py", "Grid.max"), ("grid.py", "Grid.cumsum"), ("grid.py", "Grid.derivative"),
@@ -741,6 +741,10 @@ def _analyse(fn, tainted_params, fns, writes, calls):
                             record(c, "self-call", f"{ast.unparse(f.value)}.{f.attr}()")
                 elif rn != kwname and _level(f.value, T, kwname) == 2:
                     record(c, "call", f"{ast.unparse(f.value)}.{f.attr}()")
+            for k in c.keywords:
+                # numpy's `out=` writes the result into the given array
+                if k.arg == "out" and _level(k.value, T, kwname) == 2:
+                    record(c, "out=", ast.unparse(k.value))
             # propagate into callees defined in xgcm
             cname = f.id if isinstance(f, ast.Name) else (f.attr if isinstance(f, ast.Attribute) else None)
             if cname is None:
@@ -819,9 +823,24 @@ def _analyse(fn, tainted_params, fns, writes, calls):
                                 record(s, "self-assign", ast.unparse(t))
                         elif rn is not None and rn != kwname and _level(base_expr(t), T, kwname) == 2:
                             record(s, "assign", ast.unparse(t))
+                    if isinstance(s, ast.AugAssign):
+                        continue
+                    if isinstance(t, (ast.Tuple, ast.List)):
+                        # unpacking: element-wise for a literal of the same length, otherwise every name receives
+                        # an ELEMENT of the container on the right
+                        if isinstance(val, (ast.Tuple, ast.List)) and len(val.elts) == len(t.elts):
+                            pairs = [(x, _level(v, T, kwname)) for x, v in zip(t.elts, val.elts)]
+                        else:
+                            lv_all = 2 if (val is not None and _level(val, T, kwname)) else 0
+                            pairs = [(x, lv_all) for x in t.elts]
+                        for x, lv in pairs:
+                            for nm in _targets(x):
+                                if lv:
+                                    T[nm] = lv
+                                else:
+                                    T.pop(nm, None)
+                        continue
                     for nm in _targets(t):
-                        if isinstance(s, ast.AugAssign):
-                            continue
                         lv = _level(val, T, kwname) if val is not None else 0
                         if lv:
                             T[nm] = lv
@@ -851,6 +870,11 @@ def gen_sites():
         if fn.vararg:
             tp.add((fn.vararg, 1))
         work.append(((m, q), frozenset(tp)))
+    # the numpy kernels of gridops.py are handed views of the caller's buffers (no copy is made when no padding
+    # is needed): every parameter of every function there is caller-visible
+    for (m, q), fn in fns.items():
+        if m == "gridops.py" and "." not in q:
+            work.append(((m, q), frozenset((x, 2) for x in fn.params)))
     recognised = True
     steps = 0
     try:
